@@ -121,14 +121,28 @@ pub fn eval_run(scn: &Arc<Scenario>, spec: &SchedSpec) -> RunInfo {
 // ------------------------------------------------------------------------------- generation
 
 pub fn draw_sched(rng: &mut Rng, n_threads: usize, est_len: u32) -> SchedSpec {
-    let kind = match rng.below(10) {
+    draw_sched_with(rng, n_threads, est_len, &[])
+}
+
+/// `per_task`: multi-candidate decisions won by each task in a first (uniform) run of the same
+/// scenario, the yardstick for the hand-off point.
+pub fn draw_sched_with(rng: &mut Rng, n_threads: usize, est_len: u32, per_task: &[u32]) -> SchedSpec {
+    let kind = match rng.below(12) {
         0..=2 => SchedKind::Uniform,
         3 => SchedKind::Bursty(500),
         4 => SchedKind::Bursty(900),
         5 => SchedKind::Bursty(980),
         6..=7 => SchedKind::Pct { depth: 1 + rng.below(3) as u8, est_len: est_len.max(8) },
         8 => SchedKind::Stall { victim: 1 + rng.below(n_threads) as u8, start: rng.below(est_len.max(2) as usize) as u32, len: 5 + rng.below(200) as u32 },
-        _ => SchedKind::Uniform,
+        9 => SchedKind::Uniform,
+        _ => {
+            let first = 1 + rng.below(n_threads);
+            let own = per_task.get(first).copied().unwrap_or(est_len / n_threads.max(1) as u32).max(2);
+            // (a third of the time right after the thread's start: reads made before the first
+            // transactional access of a body have the narrowest windows)
+            let after = if rng.chance(0.33) { rng.below(12) } else { rng.below(own as usize + 2) };
+            SchedKind::Handoff { first: first as u8, after: after as u32 }
+        }
     };
     SchedSpec { kind, seed: rng.next(), early_wake_pm: if rng.chance(0.3) { 50 + rng.below(300) as u16 } else { 0 }, fair_after: FAIR_AFTER, replay: None }
 }
@@ -140,6 +154,7 @@ pub fn sched_name(k: &SchedKind) -> String {
         SchedKind::Pct { depth, .. } => format!("pct{depth}"),
         SchedKind::Stall { .. } => "stall".into(),
         SchedKind::Fair => "fair".into(),
+        SchedKind::Handoff { .. } => "handoff".into(),
     }
 }
 
@@ -355,9 +370,20 @@ fn edits_involving(s: &crate::state::State, x: u32, in_use: &[u32]) -> Vec<crate
 pub fn gen_pair_conflict(rng: &mut Rng) -> Scenario {
     use crate::ops::{Op, Runner, Tx};
     use crate::props::hprops::Flavour;
-    let dim3 = rng.chance(0.4);
+    let force_t = std::env::var("VERIF_C07_TEMPLATE").is_ok();
+    let dim3 = rng.chance(0.4) || force_t;
+    let want_template = dim3 && (rng.chance(0.5) || force_t);
     let mut init = if dim3 {
-        crate::gen3::gen_init_3d(rng, Flavour::Sews, Tier::Quick)
+        // the template below needs two faces that can be 3-sewn or are 3-sewn: a few draws
+        let mut s = crate::gen3::gen_init_3d(rng, Flavour::Sews, Tier::Quick);
+        for _ in 0..8 {
+            let usable = !crate::gen3::mirror_pairs(&s).is_empty() || (1..s.n() as u32).any(|d| !s.unused[d as usize] && s.b(3, d) != 0);
+            if !want_template || usable {
+                break;
+            }
+            s = crate::gen3::gen_init_3d(rng, Flavour::Sews, Tier::Quick);
+        }
+        s
     } else {
         let kinds = if rng.chance(0.5) { 0 } else { rand_kinds_2d(rng) };
         let n = 4 + rng.below(9);
@@ -373,11 +399,20 @@ pub fn gen_pair_conflict(rng: &mut Rng) -> Scenario {
     }
     let order = rand_order(rng, init.kinds);
     let in_use: Vec<u32> = (1..init.n() as u32).filter(|&d| !init.unused[d as usize]).collect();
-    if dim3 && rng.chance(0.5) {
+    if want_template {
         // a 3-sew of two mirror faces next to user blocks on darts of those faces
         let pairs = crate::gen3::mirror_pairs(&init);
-        if !pairs.is_empty() {
-            let (l, r) = *rng.pick(&pairs);
+        // ... or, on a complex whose faces are all glued already, the 3-unsew of a glued pair
+        let glued: Vec<u32> = in_use.iter().copied().filter(|&d| init.b(3, d) != 0 && init.face_walk(d, true).closed).collect();
+        if !pairs.is_empty() || !glued.is_empty() {
+            let unsew = pairs.is_empty() || (!glued.is_empty() && rng.chance(0.4));
+            let (l, r) = if unsew {
+                let l = *rng.pick(&glued);
+                (l, init.b(3, l))
+            } else {
+                *rng.pick(&pairs)
+            };
+            let the_op = if unsew { Op::Unsew { i: 3, l } } else { Op::Sew { i: 3, l, r } };
             if rng.chance(0.7) {
                 // one face-bound kind with a value on every face, so that the 3-sew's face
                 // merge succeeds and user blocks have something to collide with
@@ -397,7 +432,7 @@ pub fn gen_pair_conflict(rng: &mut Rng) -> Scenario {
                 }
             }
             let order = rand_order(rng, init.kinds);
-            let mut threads = vec![vec![Tx { runner: if rng.chance(0.5) { Runner::Force } else { Runner::WithErr }, ops: vec![Op::Sew { i: 3, l, r }], f1: vec![], f2: vec![], f1_attempt: 0 }]];
+            let mut threads = vec![vec![Tx { runner: if rng.chance(0.5) { Runner::Force } else { Runner::WithErr }, ops: vec![the_op], f1: vec![], f2: vec![], f1_attempt: 0 }]];
             let mut face: Vec<u32> = init.face_walk(l, true).fwd;
             face.extend(init.face_walk(r, true).fwd);
             let kinds_here = crate::attrs::mask_kinds(init.kinds);
@@ -426,8 +461,14 @@ pub fn gen_pair_conflict(rng: &mut Rng) -> Scenario {
                 };
                 threads.push(vec![Tx { runner: Runner::WithErr, ops: vec![op], f1: vec![], f2: vec![], f1_attempt: 0 }]);
             }
+            if force_t {
+                eprintln!("TEMPLATE threads {:?}", threads.iter().map(|t| t.iter().map(|x| format!("{:?}", x.ops)).collect::<Vec<_>>()).collect::<Vec<_>>());
+            }
             return Scenario { init, order, threads, f2: vec![], pre: vec![] };
         }
+    }
+    if force_t {
+        eprintln!("TEMPLATE none (no mirror pairs)");
     }
     let x = *rng.pick(&in_use);
     // the dart and its neighbourhood
@@ -637,7 +678,17 @@ pub fn gen_s3b(rng: &mut Rng) -> Scenario {
         rng.shuffle(&mut pool);
         let face = pf[d as usize];
         let flen = init.face_walk(face, true).fwd.len();
-        let op = match rng.below(if tri { 6 } else { 9 }) {
+        let op = if rng.chance(0.3) {
+            // a core edit or a user block on the same darts (what the examples' own code does
+            // next to the kernels)
+            Some(match rng.below(6) {
+                0 | 1 if init.b(2, d) != 0 => if rng.chance(0.7) { Op::Unsew { i: 2, l: d } } else { Op::Unlink { i: 2, l: d } },
+                2 if init.b(1, d) != 0 => Op::Unsew { i: 1, l: d },
+                3 => Op::WriteVCell { d, v: crate::state::b3([31.0 + d as f64, -17.5, 0.0]) },
+                4 => Op::ReadVCell { d },
+                _ => Op::CellId { okind: rng.below(3) as u8, d },
+            })
+        } else { match rng.below(if tri { 6 } else { 9 }) {
             0 | 1 => take(2, &mut pool).map(|v| Op::InsertVertex { e: pe[d as usize], nd: (v[0], v[1]), t: Some((0.2 + 0.6 * rng.unit()).to_bits()) }),
             2 => take(4, &mut pool).map(|v| Op::InsertVertices { e: pe[d as usize], nd: v, ts: vec![0.3f64.to_bits(), 0.7f64.to_bits()] }),
             3 if tri => Some(Op::Swap { e: pe[d as usize] }),
@@ -652,7 +703,7 @@ pub fn gen_s3b(rng: &mut Rng) -> Scenario {
                 _ => Op::EarclipCw { f: face, nd },
             }),
             _ => Some(Op::CellId { okind: 2, d }),
-        }
+        } }
         .unwrap_or(Op::CellId { okind: 0, d });
         let runner = match rng.below(4) {
             0 => Runner::ControlRetry,
@@ -894,16 +945,18 @@ fn run_scenario(i: u64, seed: u64, c: &mut Counters) -> Vec<Violation> {
     }
     let n_sched = 8 + rng.below(25);
     let mut est_len = 64u32;
+    let mut per_task: Vec<u32> = vec![];
     let mut out = vec![];
     let mut fin_states = std::collections::BTreeSet::new();
     for k in 0..n_sched {
-        let mut spec = draw_sched(&mut rng, scn.threads.len(), est_len);
+        let mut spec = draw_sched_with(&mut rng, scn.threads.len(), est_len, &per_task);
         if k == 0 {
             spec.kind = SchedKind::Uniform;
         }
         let info = eval_run(&scn, &spec);
         if k == 0 {
             est_len = (info.sched.multi_decisions as u32).max(8);
+            per_task = info.sched.per_task.clone();
         }
         c.inc("executions");
         c.inc(&format!("sched_{}", sched_name(&spec.kind)));
@@ -943,6 +996,7 @@ fn run_scenario(i: u64, seed: u64, c: &mut Counters) -> Vec<Violation> {
                 c.inc("runs_discarded_ill_formed");
             }
             Verdict::Violation { class, message } => {
+                c.inc(&format!("candidate_{class}_{family}"));
                 let mut spec2 = spec.clone();
                 spec2.replay = Some(info.sched.trace.clone());
                 out.push(Violation {
